@@ -1,4 +1,4 @@
-\* exhaustive: modulus 16 (undefined comparison at distance 8), every start serial,
+\* push_front + truncate(history-size) (expected to FAIL: C14_SerialCarried with history-size 0): modulus 16 (undefined comparison at distance 8), every start serial,
 \* history sizes 0..3, 3 data sets, <= 5 runs (incl. failed runs); every client serial
 \* and own/foreign session is evaluated in every reachable state.
 SPECIFICATION Spec
@@ -8,8 +8,8 @@ CONSTANTS
   Sets = {0, 1, 2}
   MaxRuns = 5
   Bases = {0,1,2,3,4,5,6,7,8,9,10,11,12,13,14,15}
-  Variant = "intended"
+  Variant = "truncate_to_keep"
 CONSTRAINT RunBound
-INVARIANTS C13 C14_Bounded C14_Consecutive C14_SerialCarried C14_FirstIsZero
+INVARIANTS C14_SerialCarried C13 C14_Bounded C14_Consecutive C14_FirstIsZero
 PROPERTIES C14_Step C33_FailedRunChangesNothing
 CHECK_DEADLOCK FALSE
